@@ -352,7 +352,7 @@ def run(ctx):
         "the designated objects component by component and rebind nothing. "
         "POINTER PAYLOADS: T in {int*, const int*, Counted*} as value closures (built from a prvalue / an xvalue pointer: the wrapper owns the pointer value) and as reference closures (T*&, T* const&: "
         "the wrapper aliases the pointer variable) of closure, const_closure, proxy_wrapper (get, rvalue get, conversion, assign value, copy/move construct, copy-assign (also from const), move-assign, "
-        "member and ADL swap, == / != incl. different pointers to equal pointees, operator& and writing through it, null), closure_pointer, optional, masked_value: 128 forms x 3 payloads; the pointees are "
+        "member and ADL swap, == / != incl. different pointers to equal pointees, operator& and writing through it, null), closure_pointer, optional, masked_value: 146 forms x 3 payloads; the pointees are "
         "never touched. CONVERSIONS: a reference-closure wrapper built from lvalues (closure, proxy_wrapper, closure_pointer, optional, masked_value, xcomplex; closure T& and const T&) used as lvalue, xvalue and "
         "prvalue-proxy source of an owning specialization or value (converting constructors implicit and explicit, converting assignments, &&-qualified accessors and conversion operators, "
         "162 forms) x payload {Counted, heap std::string, std::vector<int>}: the originals keep their value and are never the source of a move, the result is equal and independent. "
